@@ -296,7 +296,8 @@ def c105(ctx):
                 for (bi, on, ts, els) in _sw7(g):
                     o = g.origin(on)
                     if o[0] == 'rv' and o[1]['k'] == 'discr' and str(vidx['ContinuityMessageAppended']) in ts:
-                        if g.edge_dom(bi, ts[str(vidx['ContinuityMessageAppended'])], c.bb):
+                        from ..core import sole_target as _sole
+                        if _sole(ts, els, str(vidx['ContinuityMessageAppended'])) is not None and g.edge_dom(bi, ts[str(vidx['ContinuityMessageAppended'])], c.bb):
                             ok = True
                 ctx.ob('C10.7', g, 'anchor-is-a-message', ok, 'Event.id is compared with the requested id %s' % ('only on the ContinuityMessageAppended arm' if ok else
                        'for frames of ANY kind: the id of a run_spawned / run_ended / created frame is accepted as from_message_id'), line=c.line)
